@@ -156,6 +156,17 @@ class C01(L1Prop):
         for k in range(sizes(tier, 1, 4)):
             ops = ["raw", "ensure 1", "av 1 nil b:1", "av 1 latest:1 b:2", f"lockfor {5600 + 300 * k}", f"race 1 {2 + k % 2} 3"]
             out.append(Case(f"c01-lockrace-{k}", ops, {"only": "sqlite", "race": True, "raw": False}))
+        # a long-lived client: far more versions than any snapshot interval, walked end to end and asked about
+        # old parents; and a client whose accumulated history is large (hundreds of megabytes in total)
+        for k, n in enumerate([130, 260][:sizes(tier, 1, 2)]):
+            ops = ["ensure 1"] + [f"av 1 {('nil' if k else 'fresh') if i == 0 else 'latest:1'} b:{i % 251},{k}" for i in range(n)]
+            ops += ["walk 1", "gcv 1 base:1", "gcv 1 ver:1:0", f"gcv 1 ver:1:{n // 2}", f"gcv 1 ver:1:{n - 102}", f"gcv 1 ver:1:{n - 2}", "av 1 ver:1:3 b:9", "av 1 latest:1 b:9,9", "walk 1"]
+            out.append(Case(f"c01-long-{k}", ops))
+        for k in range(sizes(tier, 1, 2)):
+            nb = [10485760, 31457280][k]
+            cnt = 150994944 // nb + 1
+            ops = ["ensure 1"] + [f"av 1 latest:1 z:{nb}:{i + 1}" for i in range(cnt)] + ["walk 1", "av 1 latest:1 b:1", "gcv 1 anc:1:1", "walk 1"]
+            out.append(Case(f"c01-bulk-{k}", ops, {"bulk": True}))
         # the history does not start with this build: a data directory written by the pinned release
         def tail(name, c, nacc, snap, o):
             return [f"walk {c}", f"walk {o}", f"av {c} latest:{c} b:1,1", f"av {o} latest:{o} b:1,2", f"av {c} anc:{c}:1 b:1,3",
@@ -254,6 +265,10 @@ def cas_check(i, trace, fails, http=False):
         if not d.absent and d.latest != 0 and d.latest in d.by_id and d.by_id.get(d.latest) is None:
             fails.append(f"op {i}: {nm} the request the client's latest pointer names {d.latest}, which is not a stored version of this client "
                          f"(the client has no such version: requests are then decided against a version that does not exist)")
+        # "the client has no versions yet": nothing is stored for it
+        if not d.absent and d.latest == 0 and d.versions():
+            fails.append(f"op {i}: {nm} the request the client's latest pointer is nil although versions of this client are stored "
+                         f"({len(d.versions())} visible): the client counts as having no versions and any parent is accepted")
     if b.absent:
         # the library reports NoSuchClient; the HTTP handler creates the client and accepts
         want = "added" if http else "noclient"
@@ -312,9 +327,13 @@ def http_as_lib(trace):
     that the same compare-and-append oracle reads them"""
     from .props_http import HOp, HResp
     out = []
+    allowlisted = any(o.startswith("allow ") and not o.startswith("allow none") for (o, _, _) in trace)
     for (o, ri, rm) in trace:
         if o.startswith("http "):
             h, r = HOp(o), HResp(ri)
+            if r.status == 403 and allowlisted:
+                # refused by the allow-list of this case (property C16): not an add-version outcome
+                out.append(("refused " + o, ri, rm)); continue
             if h.route == "av" and h.valid():
                 if r.status == 200 and r.xv.isdigit():
                     rr = f"added {r.xv} {'none' if r.xs == '-' else r.xs}"
@@ -424,6 +443,22 @@ class C02(L1Prop):
                    f"http POST av hyph={['nil', 'fresh', '$odd1'][k % 3]} hyph=9 history b:2,{k}", "dumpall",
                    "http POST av hyph=latest:9 hyph=9 history b:3", "dumpall", "http POST av hyph=nil hyph=9 history b:4", "dumpall"]
             out.append(Case(f"c02-newfault-{k}", ops, {"only": "sqlite", "faults": True, "http": True}, mode="http"))
+        # a server restricted to a list of clients, restarted (same list, another list, no list) in the middle of
+        # the clients' histories: acceptance is still decided by the stored latest version
+        for k in range(sizes(tier, 8, 50)):
+            al = ["1,2", "1", "1,2,3", "2,1"][k % 4]
+            ops = [f"allow {al}"]
+            for c in (1, 2):
+                ops += [f"http POST av hyph={'nil' if (k + c) % 2 else 'fresh'} hyph={c} history b:1,{c}"]
+                ops += [f"http POST av hyph=latest:{c} hyph={c} history b:2,{i}" for i in range(1 + (k + c) % 3)]
+            if k % 3 == 1:
+                ops.append("http POST as hyph=latest:1 hyph=1 snapshot b:9")
+            for step, nxt in enumerate(([al], [al, "1,2,3"], ["none", al])[k % 3]):
+                ops += [f"allow {nxt}", "reopen"] if nxt != al else ["reopen"]
+                ops += ["dumpall", f"http POST av hyph={['anc:1:1', 'nil', 'fresh'][(k + step) % 3]} hyph=1 history b:5,{step}", "dumpall",
+                        f"http POST av hyph=latest:1 hyph=1 history b:6,{step}", "dumpall",
+                        f"http POST av hyph=latest:2 hyph=2 history b:7,{step}", "dumpall"]
+            out.append(Case(f"c02-allow-{k}", ops, {"http": True}, mode="http"))
         # several server instances on one directory, used in turn
         for k in range(sizes(tier, 12, 100)):
             ops = ["ensure 1"]
@@ -443,6 +478,10 @@ class C02(L1Prop):
         return out
     def relevant(self, i, trace):
         o, ri, rm = trace[i]
+        if o.startswith("http "):
+            from .props_http import HOp, HResp
+            h, a, b = HOp(o), HResp(ri), HResp(rm)
+            return h.route == "av" and h.valid() and (a.status, a.xv, a.xp) != (b.status, b.xv, b.xp)
         op = Op(o)
         if op.kind == "av":
             ka, kb = ri.split()[:2], rm.split()[:2]
@@ -653,9 +692,38 @@ class C08(L1Prop):
                 ops += [f"gcv {c} {spec}", f"av {c} {spec} b:77,{j}"]
             return ops
         out += fixture_cases("c08", rng, sizes(tier, 7, 28), tail)
+        # over HTTP, the parent (and the client id) written in every spelling the server accepts: the same
+        # question and the same upload, on states where the answer is a version, gone and not-found
+        for k in range(sizes(tier, 8, 40)):
+            forms = ["upper", "simple", "braced", "urn", "hyph"]
+            pf, cf = forms[k % 5], forms[(k // 5 + k) % 5]
+            ops = [f"http POST av hyph={'nil' if k % 2 else '$3'} hyph=1 history b:1"] + [f"http POST av hyph=latest:1 hyph=1 history b:2,{i}" for i in range(1 + k % 4)]
+            if k % 3 == 0:
+                ops.append("http POST as hyph=latest:1 hyph=1 snapshot b:9")
+            for spec in ("anc:1:1", "base:1", "latest:1", "$1", "nil", "anc:1:2"):
+                ops += [f"http GET gcv {pf}={spec} {cf}=1 absent e", f"http POST av {pf}={spec} {cf}=1 history b:3,{k % 200}"]
+            ops += [f"http GET gcv {pf}=$2 {cf}=2 absent e", f"http POST av {pf}=$2 {cf}=2 history b:4"]
+            out.append(Case(f"c08-spell-{k}", ops, {"http": True}, mode="http"))
+        # the real executable with every boolean switch it advertises (in --help) beyond the options the
+        # model knows switched ON, by flag and by environment variable: the statement holds "for any
+        # client state", whatever the operator configured
+        for j in range(sizes(tier, 2, 6)):
+            ops = [f"boot listen=flag:1 dir=flag allow=none versions=default days=default extra=auto:{'flag' if j % 2 == 0 else 'env'}"]
+            for c in (1, 2):
+                first = ["$1", "nil"][(c + j) % 2]
+                ops += [f"http@0 GET gcv hyph={first} hyph={c} absent e", f"http@0 POST av hyph={first} hyph={c} history b:1,{c}"]
+                for i in range(2 + j % 3):
+                    ops += [f"http@0 POST av hyph=latest:{c} hyph={c} history b:2,{i}"]
+                for spec in (f"latest:{c}", f"anc:{c}:1", "nil", "$2", f"base:{c}"):
+                    ops += [f"http@0 GET gcv hyph={spec} hyph={c} absent e", f"http@0 POST av hyph={spec} hyph={c} history b:3"]
+            ops += ["kill"]
+            out.append(Case(f"c08-bin-{j}", ops, {"http": True, "only": "sqlite"}, mode="bin"))
         return out
     def relevant(self, i, trace):
         o, ri, rm = trace[i]
+        if o.startswith("http "):
+            from .props_http import HOp, HResp
+            return HOp(o).route in ("gcv", "av") and HResp(ri).status != HResp(rm).status
         k = Op(o).kind
         if k == "gcv":
             return resp_kind(ri) != resp_kind(rm)
@@ -680,6 +748,21 @@ class C08(L1Prop):
                         fails.append(f"op {i}: get_child_version({op.p}) answered {ri} but no child was ever accepted")
                     elif g == "gone" and latest.get(op.c) == op.p:
                         fails.append(f"op {i}: get_child_version(latest) answered gone")
+            return fails
+        if case.meta.get("http"):
+            from .props_http import HOp, HResp
+            for i in range(len(trace) - 1):
+                if not (trace[i][0].startswith("http ") and trace[i + 1][0].startswith("http ")):
+                    continue
+                a, b = HOp(trace[i][0]), HOp(trace[i + 1][0])
+                if a.route == "gcv" and b.route == "av" and a.valid() and b.valid() and a.cid == b.cid and a.seg == b.seg:
+                    g, v = HResp(trace[i][1]).status, HResp(trace[i + 1][1]).status
+                    if g == 404 and v != 200:
+                        fails.append(f"op {i}: GET get-child-version/{a.seg} answered 404 (nothing to fetch: an upload on this parent would be accepted) but the upload that followed was answered {v}")
+                    if g == 410 and v != 409:
+                        fails.append(f"op {i}: GET get-child-version/{a.seg} answered 410 (gone) but the upload on that parent was answered {v}")
+                    if g not in (200, 404, 410):
+                        fails.append(f"op {i}: GET get-child-version answered {g}")
             return fails
         for i in range(len(trace) - 1):
             a, b = Op(trace[i][0]), Op(trace[i + 1][0])
